@@ -12,7 +12,7 @@ import (
 var minimal = funcGen.New[float64]().
 	SetComfort(true).
 	AddConstant("pi", math.Pi).
-	AddSimpleOp("=", true, func(a, b float64) (float64, error) { return fromBool(a == b), nil }).
+	AddSimpleOp("=", false, func(a, b float64) (float64, error) { return fromBool(a == b), nil }).
 	AddSimpleOp("<", false, func(a, b float64) (float64, error) { return fromBool(a < b), nil }).
 	AddSimpleOp(">", false, func(a, b float64) (float64, error) { return fromBool(a > b), nil }).
 	AddSimpleOp("+", true, func(a, b float64) (float64, error) { return a + b, nil }).
